@@ -17,6 +17,8 @@ CONSTANTS
   UploadSizes = {1, 16385}
   MaxBurst = 1
   DynChoices = {FALSE}
+  HalfOps = {}
+  MaxHalf = 0
   Paths = FALSE
 INIT Init
 NEXT Next
@@ -25,6 +27,7 @@ INVARIANT InvStreamPrefix
 INVARIANT InvNothingPastMutation
 INVARIANT InvNoSpuriousError
 INVARIANT InvInSync
+INVARIANT InvReadsSurvive
 PROPERTY PropSticky
 PROPERTY PropKsPure
 INVARIANT Emit
